@@ -155,6 +155,13 @@ class P(Prop):
             n = rng.choice(sorted(c.graph.nodes))
             if c.type(n) not in ("bb_input", "bb_output"):
                 c.relabel({n: "\\" + n + "[0]"})
+        if rng.random() < 0.3:
+            # nodes without an "output" attribute at all, as the fast Verilog reader leaves its inputs and tie cells and as
+            # `Circuit(graph=...)` accepts them: a getter that fills in the default writes to its argument
+            for n in list(c.graph.nodes):
+                if not c.graph.nodes[n].get("output", False) and rng.random() < 0.5:
+                    c.graph.nodes[n].pop("output", None)
+            self.stats.bump("shape:nodes-without-output-attribute")
         other = gen.circuit(rng, n_in=(1, 3), n_gates=(1, 4), in_names=sorted(c.inputs()))
         return c, other
 
@@ -164,7 +171,14 @@ class P(Prop):
 
     def check(self, c, other):
         rng = self.rng
-        for name, f in self.functions(c, other):
+        snap0 = (snapshot(c), snapshot(other))
+        fns = self.functions(c, other)
+        if (snapshot(c), snapshot(other)) != snap0:
+            # building the call list only runs read-only queries (inputs(), outputs(), transitive_fanin/fanout ...)
+            self.fail("search", "argument-modified:read-only-queries", "inputs()/outputs()/transitive_fanin() changed the circuit",
+                      {"fn": "queries", "c": c_to_json(c)})
+            return
+        for name, f in fns:
             before = (snapshot(c), snapshot(other))
             ids_before = mutable_ids(c) | mutable_ids(other)
             o, r = call(f)
